@@ -185,6 +185,19 @@ impl Cx for masked::Iupac {
     mask_impl!();
 }
 
+impl Cx for crate::custom::X3 {
+    const NAME: &'static str = "x3";
+    ord_impl!();
+    comp_impl!();
+    const ALPHABET: &'static [u8] = b"ACGTN-";
+}
+
+impl Cx for crate::custom::X7 {
+    const NAME: &'static str = "x7";
+    ord_impl!();
+    const ALPHABET: &'static [u8] = b"ACGTNW";
+}
+
 impl Cx for degenerate::Dna {
     const NAME: &'static str = "degen";
     ord_impl!();
@@ -225,9 +238,17 @@ macro_rules! with_codec {
                 type $A = bio_seq::codec::degenerate::Dna;
                 $body
             }
+            "x3" => {
+                type $A = $crate::custom::X3;
+                $body
+            }
+            "x7" => {
+                type $A = $crate::custom::X7;
+                $body
+            }
             other => panic!("unknown codec {other}"),
         }
     };
 }
 
-pub const CODECS: [&str; 7] = ["dna", "iupac", "amino", "text", "mdna", "miupac", "degen"];
+pub const CODECS: [&str; 9] = ["dna", "iupac", "amino", "text", "mdna", "miupac", "degen", "x3", "x7"];
